@@ -31,7 +31,7 @@ for fn in sorted(os.listdir("known")) if os.path.isdir("known") else []:
         continue
     for line in open(os.path.join("known", fn)):
         line = line.strip()
-        if not line:
+        if not line or not line.startswith("{"):
             continue
         d = json.loads(line)
         fid = d.get("id") or d["signature"]
